@@ -2,7 +2,6 @@ package main
 
 import (
 	"fmt"
-	"go/constant"
 	"go/token"
 	"go/types"
 	"strings"
@@ -763,9 +762,27 @@ func checkHeaderSection(w *World, r *Report) {
 		r.Unknown("W5", "Builder", "-", "type not found")
 		return
 	}
-	fn := findMethod(w.Prog, T, "WriteHeader")
+	// the header writer, found by what it does: the function of the package that is handed a *Builder (as receiver or
+	// parameter) and writes the file magic
+	var fn *ssa.Function
+	for _, f := range w.funcsInPkg("cmd/thermal-writer") {
+		takesBuilder := false
+		for _, p := range f.Params {
+			if isPtrTo(p.Type(), T) {
+				takesBuilder = true
+			}
+		}
+		if !takesBuilder {
+			continue
+		}
+		for _, a := range writeArgs(e, f) {
+			if strings.Contains(a, `"CPTR"`) {
+				fn = f
+			}
+		}
+	}
 	if fn == nil {
-		r.Unknown("W5", "Builder.WriteHeader", "-", "method not found")
+		r.Unknown("W5", "header section writer", "-", "no function taking a *Builder writes the file magic")
 		return
 	}
 	args := writeArgs(e, fn)
@@ -773,24 +790,11 @@ func checkHeaderSection(w *World, r *Report) {
 	ok := len(args) == 2 && strings.Contains(args[0], `"CPTR"`) && strings.HasPrefix(args[0], `builtin.append("CPTR", list(2, 72, #1(cptv.FieldWriter.Bytes(`) && strings.HasPrefix(args[1], "#0(cptv.FieldWriter.Bytes(")
 	detail := strings.Join(args, " | ")
 	r.Check(ok, "W5", "header = magic 'CPTR' ‖ version 2 ‖ 'H' ‖ field count ‖ fields", w.Pos(fn.Pos()), detail)
-	// the constants by value
-	pkg := w.Pkg("cmd/thermal-writer")
-	for name, want := range map[string]string{"thermalRawMagic": `"CPTR"`, "thermalRawVersion": "2", "headerSection": "72", "frameSection": "70"} {
-		c, ok := pkg.Members[name].(*ssa.NamedConst)
-		got := "<missing>"
-		if ok {
-			got = c.Value.Value.ExactString()
-			if c.Value.Value.Kind() == constant.String {
-				got = c.Value.Value.ExactString()
-			}
-		}
-		r.Check(got == want, "W5", "constant "+name, "-", got)
-	}
 	// newThermalRaw writes the header before any frame: WriteHeader called on every successful return
 	// the function that opens a new file: returns a *Builder and writes the header
 	var nt *ssa.Function
 	for _, f := range w.funcsInPkg("cmd/thermal-writer") {
-		if f.Signature.Results().Len() >= 1 && isPtrTo(f.Signature.Results().At(0).Type(), T) && reachableNames(f, 0)["WriteHeader"] {
+		if f.Signature.Results().Len() >= 1 && isPtrTo(f.Signature.Results().At(0).Type(), T) && reachableNames(f, 0)[fn.Name()] {
 			nt = f
 		}
 	}
